@@ -287,6 +287,17 @@ func ecdhSharedSecret(key *ecdh.PrivateKey, paramA, paramB ecdhParam) ([]byte, e
 		return nil, fmt.Errorf("neither parameter for the shared secret matched the session private key")
 	}
 
+	// A peer may send coordinates without leading zero bytes. UnmarshalBinary
+	// pads to the longer of the two, so when both are short the point still
+	// has to be padded to the curve's coordinate size.
+	if size, n := (len(key.PublicKey().Bytes())-1)/2, (len(other.Pub)-1)/2; n < size && len(other.Pub) == 1+2*n {
+		padded := make([]byte, 1+2*size)
+		padded[0] = other.Pub[0]
+		copy(padded[1+size-n:1+size], other.Pub[1:1+n])
+		copy(padded[1+2*size-n:], other.Pub[1+n:])
+		other.Pub = padded
+	}
+
 	// Create ECDH public key from parameter
 	ecdhPub, err := key.Curve().NewPublicKey(other.Pub)
 	if err != nil {
